@@ -901,4 +901,183 @@ theorem invEarly_stepAt {s s' : St} {a : Act} (hL : InvLists s) (hi : InvEarly s
     · rename_i t hf; have hf2 := fetchRes_run hf; intro x; have hx := hi x; have ht := hi t; fin_early x t hL
     · rename_i t hf; have hf2 := fetchRes_asap hf; intro x; have hx := hi x; have ht := hi t; fin_early x t hL
 
+
+def qhPast (q : QH) : Prop := q = .ready ∨ (∃ t, q = .hold t) ∨ (∃ t, q = .pre t)
+
+/-- Slot accounting: `queueWg` counts the slot watchers; while the queue handler is past its wait, no watcher
+    of an execution started by it is left; an execution started by the queue handler that has not returned,
+    was not cancelled and did not exceed the execution-wait limit still has its watcher. -/
+def InvWatch (s : St) : Prop :=
+  ∀ u : Nat,
+    s.wg = s.watchers.length ∧
+    (qhPast s.qh → ∀ w, w ∈ s.watchers → w.byQh = false) ∧
+    ((s.tasks u).byQh = true → 0 < (s.tasks u).sp + (s.tasks u).fn → (s.tasks u).ctxDone = false →
+      (s.tasks u).tmo = false → ∃ w, w ∈ s.watchers ∧ w.t = u ∧ w.gen = (s.tasks u).gen ∧ w.byQh = true)
+
+syntax "fin_watch " ident ident : tactic
+macro_rules
+  | `(tactic| fin_watch $x $t) => `(tactic|
+      (by_cases e : $x = $t
+       · subst e; (try simp [Task.active, qhPast, preQ, preS] at *) <;> grind
+       · have e' : ¬ $t = $x := fun h => e h.symm
+         (try simp only [Task.active, qhPast, preQ, preS] at *)
+         (try simp [e, e'])
+         (try grind)))
+
+set_option maxHeartbeats 2000000 in
+theorem invWatch_stepAt {s s' : St} {a : Act} (hR : InvRun s) (hi : InvWatch s) (h : stepAt s a = some s') : InvWatch s' := by
+  cases a with
+  | newInert t => simp only [stepAt] at h; cases h; intro x; have hx := hi x; have ht := hi t; (have hRx := hR x; have hRt := hR t; fin_watch x t)
+  | queue t => simp only [stepAt] at h; cases h; intro x; have hx := hi x; have ht := hi t; simp only [doQueue]; (repeat' split) <;> (have hRx := hR x; have hRt := hR t; fin_watch x t)
+  | queueP t => simp only [stepAt] at h; cases h; intro x; have hx := hi x; have ht := hi t; simp only [doQueueP]; (repeat' split) <;> (have hRx := hR x; have hRt := hR t; fin_watch x t)
+  | asap t b =>
+    simp only [stepAt] at h; split at h
+    · cases h
+    · cases h; intro x; have hx := hi x; have ht := hi t; simp only [doAsap]; (repeat' split) <;> (have hRx := hR x; have hRt := hR t; fin_watch x t)
+  | maxDelay t d => simp only [stepAt] at h; cases h; intro x; have hx := hi x; have ht := hi t; (have hRx := hR x; have hRt := hR t; fin_watch x t)
+  | schedule t tm => simp only [stepAt] at h; cases h; intro x; have hx := hi x; have ht := hi t; simp only [doSchedule]; (repeat' split) <;> (have hRx := hR x; have hRt := hR t; fin_watch x t)
+  | cancel t => simp only [stepAt] at h; cases h; intro x; have hx := hi x; have ht := hi t; simp only [doCancel]; (have hRx := hR x; have hRt := hR t; fin_watch x t)
+  | qhWait =>
+    simp only [stepAt] at h; split at h
+    · cases h
+    · cases h; intro x; have hx := hi x; ((try simp [qhPast] at *) <;> grind)
+  | qhPop =>
+    simp only [stepAt] at h; (repeat' split at h) <;> cases h <;> intro x <;> have hx := hi x <;> ((try simp [qhPast] at *) <;> grind)
+  | runQ =>
+    simp only [stepAt] at h; split at h
+    · rename_i t hq
+      cases h; intro x; have hx := hi x; have ht := hi t
+      simp only [runSection, runResOf]; (repeat' split) <;> (have hRx := hR x; have hRt := hR t; fin_watch x t)
+    · cases h
+  | runS =>
+    simp only [stepAt] at h; split at h
+    · rename_i t hq
+      cases h; intro x; have hx := hi x; have ht := hi t
+      simp only [runSection, runResOf]; (repeat' split) <;> (have hRx := hR x; have hRt := hR t; fin_watch x t)
+    · cases h
+  | spawnQ =>
+    simp only [stepAt] at h; split at h
+    · rename_i t hq
+      cases h; intro x; have hx := hi x; have ht := hi t; (have hRx := hR x; have hRt := hR t; fin_watch x t)
+    · cases h
+  | spawnS =>
+    simp only [stepAt] at h; split at h
+    · rename_i t hq
+      cases h; intro x; have hx := hi x; have ht := hi t; (have hRx := hR x; have hRt := hR t; fin_watch x t)
+    · cases h
+  | fnBegin t =>
+    simp only [stepAt] at h; split at h
+    · cases h
+    · cases h; intro x; have hx := hi x; have ht := hi t; (have hRx := hR x; have hRt := hR t; fin_watch x t)
+  | fnEnd t =>
+    simp only [stepAt] at h; split at h
+    · cases h
+    · cases h; intro x; have hx := hi x; have ht := hi t; (have hRx := hR x; have hRt := hR t; fin_watch x t)
+  | finish t =>
+    simp only [stepAt] at h; split at h
+    · cases h
+    · cases h; intro x; have hx := hi x; have ht := hi t; (have hRx := hR x; have hRt := hR t; fin_watch x t)
+  | slotFree t b =>
+    simp only [stepAt] at h
+    split at h
+    · cases h
+    · rename_i w hw
+      split at h
+      · cases h
+      · rename_i hwg; cases h
+        have hmem : w ∈ s.watchers := List.mem_of_find?_eq_some hw
+        have hp := List.find?_some hw
+        have hlen : (s.watchers.erase w).length = s.watchers.length - 1 := List.length_erase_of_mem hmem
+        intro u; have hu := hi u; have hRu := hR u
+        refine ⟨?_, ?_, ?_⟩
+        · simp [hlen]; omega
+        · intro hq x hx
+          have hx' := List.mem_of_mem_erase hx
+          by_cases hc : (s.wg - 1 = 0 ∧ s.qh = QH.waiting)
+          · have : (s.watchers.erase w).length = 0 := by rw [hlen]; omega
+            have : s.watchers.erase w = [] := List.length_eq_zero_iff.1 this
+            simp [this] at hx
+          · have hq' : qhPast s.qh := by
+              simp only [qhPast] at hq ⊢
+              have hne : ¬ ((s.wg - 1 = 0 && s.qh == QH.waiting) = true) := by simpa using hc
+              simpa [hne] using hq
+            exact hu.2.1 hq' x hx'
+        · have hwt : w.t = t := by simp at hp; exact hp.1
+          by_cases e : u = t
+          · subst e
+            simp only [setTask, if_pos]
+            intro hb hsp hctx htmo
+            by_cases hc : (b && !released s w && w.gen == (s.tasks u).gen) = true
+            · simp [hc] at htmo
+            · simp [hc] at hb hsp hctx htmo ⊢
+              obtain ⟨w0, hw0, h1, h2, h3⟩ := hu.2.2 hb hsp hctx htmo
+              refine ⟨w0, ?_, h1, h2, h3⟩
+              apply (List.mem_erase_of_ne ?_).2 hw0
+              intro hww; subst hww
+              simp [released, h1, h2, hctx] at hp hc
+              simp [hp] at hc
+          · simp only [setTask, if_neg e]
+            intro hb hsp hctx htmo
+            obtain ⟨w0, hw0, h1, h2, h3⟩ := hu.2.2 hb hsp hctx htmo
+            refine ⟨w0, ?_, h1, h2, h3⟩
+            apply (List.mem_erase_of_ne ?_).2 hw0
+            intro hww; subst hww; exact e (h1.symm.trans hwt)
+
+  | shFetch =>
+    simp only [stepAt] at h; (repeat' split at h) <;> (try cases h)
+    · intro x; have hx := hi x; ((try simp [qhPast] at *) <;> grind)
+    · intro x; have hx := hi x; ((try simp [qhPast] at *) <;> grind)
+    · rename_i t hf; have hf2 := fetchRes_run hf; intro x; have hx := hi x; have ht := hi t; (have hRx := hR x; have hRt := hR t; fin_watch x t)
+    · rename_i t hf; have hf2 := fetchRes_asap hf; intro x; have hx := hi x; have ht := hi t; (have hRx := hR x; have hRt := hR t; fin_watch x t)
+
+/-! ### All invariants together -/
+
+structure Inv (s : St) : Prop where
+  run : InvRun s
+  credit : InvCredit s
+  lists : InvLists s
+  owed : InvOwed s
+  hold : InvHold s
+  early : InvEarly s
+  watch : InvWatch s
+
+theorem inv_init : Inv init := by
+  refine ⟨?_, ?_, ?_, ?_, ?_, ?_, ?_⟩
+  · intro t; simp [init, preQ, preS]
+  · intro t; simp [init, b2n, asapHeld]
+  · constructor <;> simp [init]
+  · intro t; simp [init]
+  · intro t; simp [init]
+  · intro t; simp [init]
+  · intro t; simp [init, qhPast]
+
+theorem inv_setNow {s : St} {n : Nat} (hn : s.now ≤ n) (hi : Inv s) : Inv (setNow s n) := by
+  refine ⟨hi.run, hi.credit, ?_, hi.owed, hi.hold, ?_, hi.watch⟩
+  · exact ⟨hi.lists.memQ, hi.lists.memP, hi.lists.memS, hi.lists.ndS, hi.lists.sortQ, hi.lists.sortP,
+      hi.lists.bndQ, hi.lists.bndP⟩
+  · intro t
+    have h := hi.early t
+    refine ⟨h.1, h.2.1, ?_, h.2.2.2.1, h.2.2.2.2.1, h.2.2.2.2.2⟩
+    intro hp; have := h.2.2.1 hp
+    exact ⟨Nat.le_trans this.1 hn, this.2⟩
+
+theorem inv_stepAt {s s' : St} {a : Act} (hi : Inv s) (h : stepAt s a = some s') : Inv s' :=
+  ⟨invRun_stepAt hi.run h, invCredit_stepAt hi.credit h, invLists_stepAt hi.lists h, invOwed_stepAt hi.owed h,
+   invHold_stepAt hi.hold h, invEarly_stepAt hi.lists hi.early h, invWatch_stepAt hi.run hi.watch h⟩
+
+theorem step_eq {s s' : St} {now : Nat} {a : Act} (h : step s now a = some s') :
+    s.now ≤ now ∧ stepAt (setNow s now) a = some s' := by
+  simp only [step] at h
+  split at h
+  · cases h
+  · exact ⟨by omega, h⟩
+
+theorem inv_step {s s' : St} {now : Nat} {a : Act} (hi : Inv s) (h : step s now a = some s') : Inv s' :=
+  inv_stepAt (inv_setNow (step_eq h).1 hi) (step_eq h).2
+
+theorem reachable_inv {s : St} (h : Reachable s) : Inv s := by
+  induction h with
+  | init => exact inv_init
+  | step now a _ hs ih => exact inv_step ih hs
+
 end PB.Tasks
